@@ -8,7 +8,7 @@ ALLOWED_AXIOMS = {"Classical_Prop.classic", "ClassicalDedekindReals.sig_not_dec"
                   "ClassicalDedekindReals.sig_forall_dec",
                   "FunctionalExtensionality.functional_extensionality_dep"}
 MANIFEST = {
-    "text": "Coq theorems: in every state reachable by any sequential history the live claims on actuators are pairwise disjoint; a refused claim registers nothing; actuation of an actuator whose owner is gone or expired fails (not succeeds) and housekeeping releases the claim; and the disjointness invariant holds after any interleaving of concurrent claims, disconnects and housekeeping runs at lock granularity (c10_exclusive_all_schedules, an instance of the generic interleaving-invariant theorem). Tied to the code by claim / disconnect / expiry / re-claim histories, including scripted loss scenarios (the provider's token expires or its stream is dropped; single and batch actuation by a live caller before and after housekeeping; a second provider claims) judged by the clauses C10-lost and C10-release; by the lock-trace correspondence of provide_actuation / cleanup; and by a schedule search polling the real futures of competing claims.",
+    "text": "Coq theorems: in every state reachable by any sequential history the live claims on actuators are pairwise disjoint; a refused claim registers nothing; actuation of an actuator whose owner is gone or expired fails (not succeeds) and housekeeping releases the claim; and the disjointness invariant holds after any interleaving of concurrent claims, disconnects and housekeeping runs at lock granularity (c10_exclusive_all_schedules, an instance of the generic interleaving-invariant theorem). Tied to the code by claim / disconnect / expiry / re-claim histories, including scripted loss scenarios (the provider's token expires or its stream is dropped; single and batch actuation by a live caller before and after housekeeping; a second provider claims) judged by the clauses C10-lost and C10-release; by the lock-trace correspondence of provide_actuation / cleanup; and by a schedule search polling the real futures of competing claims. Also: loss scenarios in which the owner sits behind the kuksa.val.v2 OpenProviderStream handler (called in process) and is lost by dropping its response stream, so that the handler's own Provider::is_available decides; a stale registration removed by housekeeping between the two phases of a claim in the schedule explorer (task kind 15); claims refused as already existing need an earlier accepted claim.",
     "note": "Trusted: Coq kernel; the 4 standard-library axioms that enter through Flocq (used by validate's float comparisons) as printed by Print Assumptions; extraction + OCaml driver (vm_compute cross-check each run); harness/src/fam_hist.rs and hook H3 (verif_housekeeping_step); the Python monitors. Modelled, not verified: tokio broadcast (ring with capacity rounded up to a power of two, Lagged skipping) and RwLock, HashMap iteration order (outputs are sorted), the gRPC handlers on top of AuthorizedAccess (exercised by the handler-level checks), SystemTime (a timestamp is canonicalised to the operation during which it was taken; expiry is crossed in real time at a TICK).",
 }
 PROPS = set("C10".split(","))
